@@ -146,7 +146,7 @@ type c25Case struct {
 
 func genC25(t *rapid.T) c25Case {
 	c := c25Case{Concurrent: rapid.IntRange(0, 3).Draw(t, "conc") == 0}
-	c.Ops = genSops(t, []string{"attach", "attach", "attach", "detach", "listen", "listen", "unlisten", "send"}, 3, 3, 14)
+	c.Ops = genSops(t, []string{"attach", "attach", "attach", "detach", "listen", "listen", "unlisten", "send", "anon"}, 3, 3, 14)
 	for i := range c.Ops {
 		if c.Ops[i].Op == "send" {
 			c.Ops[i].Kind, c.Ops[i].Epoch = "honest", "current"
